@@ -10,6 +10,7 @@ package main
 import (
 	"context"
 	"fmt"
+	"os"
 	"runtime"
 	"runtime/debug"
 	"strings"
@@ -20,6 +21,7 @@ import (
 	"github.com/synnaxlabs/x/errors"
 
 	"verif/lib/harness"
+	"verif/lib/prng"
 )
 
 func main() {
@@ -68,6 +70,10 @@ func pause(d int) {
 	case 3:
 		time.Sleep(400 * time.Microsecond)
 	default:
+		if d >= 100 {
+			time.Sleep(time.Duration(d) * time.Millisecond)
+			return
+		}
 		time.Sleep(2 * time.Millisecond)
 	}
 }
@@ -410,6 +416,41 @@ func checkTrace(transport string, s script, tr *trace) (out []finding) {
 			}
 		}
 	}
+	// Known finding C14-ws-close-wait (see known_findings.json): after the handler returns,
+	// the WebSocket server waits closeReadWriteDeadline (500 ms of wall clock) for the
+	// client's close acknowledgement and then drops the connection; with request bytes
+	// still unread on the server side the kernel resets it and the client loses what it
+	// had not read yet. Precondition from the script: the handler returns leaving >= 64 KiB
+	// of the client's requests unread; observed: the client's terminal result is "stream
+	// closed" (its read failed with a connection reset). Findings of that shape are
+	// tagged so that the entry matches them and nothing else.
+	if strings.HasPrefix(transport, "http-") && termAt >= 0 {
+		recvHops := 0
+		for _, h := range s.Handler {
+			if h.Op == "recv" {
+				recvHops++
+			}
+		}
+		unread := 0
+		for i := recvHops; i < len(s.Sends); i++ {
+			unread += s.Sends[i].Size
+		}
+		writeFailed := false
+		for _, e := range tr.cliSent {
+			if e.Err != nil && !isEOF(e.Err) {
+				writeFailed = true
+			}
+		}
+		t0 := tr.cliRecv[termAt]
+		_ = writeFailed
+		if unread >= 64<<10 && t0.Err != nil && strings.Contains(t0.Err.Error(), "stream closed") {
+			for i := range out {
+				if out[i].Class == "response-missing" || strings.HasPrefix(out[i].Class, "terminal-mismatch") {
+					out[i].Class += ":upload-cut-at-close"
+				}
+			}
+		}
+	}
 	return out
 }
 
@@ -570,6 +611,53 @@ func layerIdle(h *harness.H) {
 	}
 	close(cases)
 	wg.Wait()
+}
+
+// layerSlowClose (NOT registered; exploration with VERIF_LAYERS=slowclose after adding it to
+// main): an attempt to reproduce the open finding C14-ws-close-wait on purpose. The handler
+// sends a few responses and returns without receiving; the client has sent >= 2 requests
+// of 100-300 KiB that stay unread on the server, and does not call Receive for 800 ms
+// (longer than the server's 500 ms wait for the close acknowledgement).
+func layerSlowClose(h *harness.H) {
+	h.AddRule("slowclose: 4 scripts x {http-json, http-msgpack}: handler sends 2-5 small responses and returns one of the result kinds without receiving; the client sends 2-3 requests of 100-300 KiB, then waits 800 ms before its first Receive; same offline checker")
+	const nLanes = 2
+	t, err := openTransports(nLanes)
+	if err != nil {
+		panic(err)
+	}
+	defer t.Close()
+	n := h.N(4, 40)
+	for c := 0; c < n; c++ {
+		if h.Skip("slowclose", c) {
+			continue
+		}
+		r := h.Rand("slowclose", c)
+		var s script
+		for i := 0; i < 40; i++ {
+			s.Sends = append(s.Sends, msgSpec{ID: 1000 + i, Size: r.Range(3<<20, 5<<20)}) // uploads without a pause for well over 500 ms
+		}
+		for i, k := 0, r.Range(2, 5); i < k; i++ {
+			s.Handler = append(s.Handler, hop{Op: "send", ID: 5000 + i, Size: r.Intn(300)})
+		}
+		s.Handler = append(s.Handler, hop{Op: "ret"})
+		s.Kind = prng.Pick(r, errKinds).Name
+		s.ErrMsg = prng.Pick(r, errMsgs)
+		s.RecvDelay = []int{1500}
+		s.CloseSend = true
+		for i, name := range []string{"http-json", "http-msgpack"} {
+			h.Eval()
+			l := t.lanes[name][i%nLanes]
+			tr := runStream(l, s)
+			if tr.openErr != nil {
+				h.Inconclusive("open-failed:" + name)
+				continue
+			}
+			if os.Getenv("VERIF_C14_DEBUG") != "" {
+				fmt.Printf("DEBUG slowclose %d %s %v\n", c, name, tr.summary())
+			}
+			judge(h, "slowclose", c, name, l, s, tr, false)
+		}
+	}
 }
 
 func runCase(h *harness.H, t *transports, w, c int) {
